@@ -38,6 +38,12 @@ GApi ==
         sl == IF p THEN slow ELSE 0 IN
     Step([In0 EXCEPT !.op = "api", !.g = g, !.kind = kind, !.name = name, !.prog = p, !.tmo = sl], ApiFx(CCur, g, kind, name, p, sl))
 
+\* CallProgressive: one to three chunks, ended in each of the three ways
+GCallProg ==
+  \E g \in R(Idle) : \E name \in R(Procs), prog \in R(BOOLEAN), n \in W(<<1, 2, 2, 3>>), how \in W(<<"false", "false", "unset", "unset", "err">>) :
+    Step([In0 EXCEPT !.op = "api", !.g = g, !.kind = "callp", !.name = name, !.prog = prog, !.a = n, !.how = how],
+         CallProgFx(CCur, g, name, prog, 0, n, how))
+
 \* ids the router may put into a reply: those somebody waits for, finished ones, unknown ones
 ReplyKinds(kind) == <<Expected(kind), Expected(kind), Expected(kind), "ERROR", "PUBLISHED", "RESULT", "SUBSCRIBED">>
 \* let the running progress handler finish
@@ -147,7 +153,7 @@ GenNext ==
        CASE kind = "api" -> GApi [] kind = "reply" -> GReply [] kind = "sched" -> GSched [] kind = "adv" -> GAdvance
          [] kind = "cancel" -> GCancel [] kind = "inv" -> GInv [] kind = "intr" -> GIntr [] kind = "release" -> GRelease
          [] kind = "event" -> GEvent [] kind = "hostile" -> GHostile [] kind = "disc" -> GDisconnect [] kind = "close" -> GClose [] kind = "dupinv" -> GDupInv
-         [] kind = "slow" -> GCancel
+         [] kind = "slow" -> GCancel [] kind = "callp" -> GCallProg
          [] OTHER -> GAdvance
 
 GenInit == h = <<>> /\ \E t \in {1000, 200} : CInitWith(t)
